@@ -5,7 +5,10 @@ action (FLoop / DLoop / DPost) and compares its state with every snapshot."""
 import sys
 
 HEADS = {"field_first_parse": {"for key, field in self.fields.items():": "floop"},
-         "data_first_parse": {"for key, value in data.items():": "dloop", "for key, field in self.fields.items():": "dpost"}}
+         "data_first_parse": {"for key, value in data.items():": "dloop", "for key, field in self.fields.items():": "dpost"},
+         # FunctionParser.parse_params (utype/parser/func.py): the positional pass and the positional-only defaults
+         "parse_params": {"for i, arg in enumerate(args):": "args", "for index, field in self.positional_only_fields:": "posonly"}}
+FILES = {"field_first_parse": "parser/base.py", "data_first_parse": "parser/base.py", "parse_params": "parser/func.py"}
 _lines = {}
 
 
@@ -17,8 +20,9 @@ def _label(code, lineno):
     return HEADS[code.co_name].get(_lines[key])
 
 
-def observe_steps(call, val, kind_of):
-    """run call() under the tracer; returns the list of snapshots [loop, res (assoc), errs, unprov, deps]"""
+def observe_steps(call, val, kind_of, names=("field_first_parse", "data_first_parse")):
+    """run call() under the tracer; returns the list of snapshots [loop, res (assoc), errs, unprov, deps] of the lookup loops, or
+    [loop, args, keys, errs] of parse_params when names = ("parse_params",)"""
     steps = []
 
     def local(frame, event, arg):
@@ -27,6 +31,10 @@ def observe_steps(call, val, kind_of):
             if lab:
                 loc = frame.f_locals
                 ctx = loc.get("context")
+                if frame.f_code.co_name == "parse_params":
+                    steps.append({"loop": lab, "args": [val(v) for v in loc.get("parsed_args", [])], "keys": list(loc.get("parsed_keys", [])),
+                                  "errs": [kind_of(e) for e in (ctx.errors if ctx is not None else [])]})
+                    return local
                 steps.append({"loop": lab,
                               "res": [{"k": str(k), "v": val(v)} for k, v in loc.get("result", {}).items()],
                               "errs": [kind_of(e) for e in (ctx.errors if ctx is not None else [])],
@@ -35,7 +43,7 @@ def observe_steps(call, val, kind_of):
         return local
 
     def tracer(frame, event, arg):
-        if event == "call" and frame.f_code.co_name in HEADS and frame.f_code.co_filename.endswith("parser/base.py"):
+        if event == "call" and frame.f_code.co_name in names and frame.f_code.co_filename.endswith(FILES[frame.f_code.co_name]):
             return local
         return None
     old = sys.gettrace()
